@@ -36,6 +36,41 @@ CHECKS = {
             "Writers append overlapping/gapped runs followed by Sync, readers loop over Head/Height/GetByHeight/Get, optionally one tail-side DeleteRange races with the appends; the tape decides every interleaving at disk operations and store hooks. Invariants per observation: Head().Height() and Height() never decrease, the observed head is retrievable by height and hash, a header whose Append+Sync completed is readable; at the end the Store equals the order-insensitive sequential model (gap-free chain, model tail after the racing delete).",
             "The race detector is not part of the deciding step (a cooperative schedule is fully happens-before ordered). Determinism holds at GOMAXPROCS=1, which workers and replays pin; at 4/16 goroutines woken by channel operations run in parallel between park points.",
             "DESIGN.md §6 C17"),
+    "C01": ("exploration",
+            "deterministic simulation of the clock only (synctest fake clock, calibrated drift boundary) + complete categorical class product with seeded concrete values vs reference model",
+            "header.Verify reads the wall clock, which the simulator owns: the drift allowance is measured by bisection (sharp, constant across pairs and clock values), then every class of the product zero/non-zero x chain x height relation (<,=,+1,>+1,+2^63) x time relation to trusted x time relation to now (past, =now+drift, +1ns, far) x 7 type-level result shapes is instantiated with tape-chosen concrete values and clock jumps and compared with the executable statement (nil iff all conditions hold; bare *VerifyError; sentinel of a violated condition; SoftFailure rule). Nothing but the clock is simulated; this is seeded generation against a model and says so.",
+            "Trusts the reference model simhdr.ModelVerify and the simhdr header type.",
+            "DESIGN.md §6 C01"),
+    "C02": ("exploration",
+            "deterministic simulation of the clock only + seeded defective sequences vs reference model (verified, height-adjacent prefix)",
+            "Sequences of 0..40 headers (adjacent or non-adjacent start) damaged by up to two defects (gap, duplicate, swap, zero, wrong chain, stale, time going back, from the future, type-level soft/hard, forged MAC, fork) at tape-chosen positions; oracle: the result is a prefix of the input by identity, its length is exactly the verified height-adjacent prefix computed by the model, err==nil iff it is the whole non-empty input, errors are *VerifyError.",
+            "Trusts the reference model; only the clock is simulated.",
+            "DESIGN.md §6 C02"),
+    "C03": ("exploration",
+            "deterministic simulation with fault injection: real Syncer+Store over SimGetter/SimSubscriber/SimDisk, seeded schedules at sync hooks and getter calls, adversarial gossip catalogue, storage oracle over API and raw datastore",
+            "Gossip deliveries (honest next/skipping/bursts with gaps, forged MAC near and far, wrong chain, dated beyond the calibrated drift, stale, duplicate), Head() calls, clock advances and getter faults (errors, short prefixes) run as concurrent tasks against the sync loop; interleaving at getter calls, sync hooks (syncStore.Append, setLocalHead, processHeaders, incomingMu token) is decided by the tape. Safety oracle at every quiescent point: every stored header (height index, header bytes, hash keys) is the honest chain's, the stored heights are one gap-free run Tail..Head, every invalid delivery got an error, no refused header is State().ToHash or Head(), the store head never moves back.",
+            "The getter is contract-abiding by construction (honest chain); validly signed forks are outside the property. Interleavings at park points only.",
+            "DESIGN.md §6 C03"),
+    "C07": ("exploration",
+            "deterministic simulation with fault injection: bounded liveness in virtual time after faults stop (honest getter with prefixes and finite error runs, concurrent gossip/Head()/sync loop schedules)",
+            "Same system as C03 with honest deliveries only; getter returns short prefixes and finite runs of errors while heads arrive adjacent, skipping, in bursts leaving gaps in the pending set and during running syncs. After the fault phase one more valid head is delivered and the run continues to quiescence under a virtual-time budget: the store head must reach the newest verified head, State() finished without error, SyncWait nil. No timing or identity is asserted while faults flow.",
+            "Liveness is bounded (30 virtual minutes per wait); the getter is honest.",
+            "DESIGN.md §6 C07"),
+    "C15": ("exploration",
+            "deterministic simulation with fault injection: bifurcation driven through the subscriber's verifier over distances 2..4096, trust-range predicates incl. non-monotone bad epochs, forged/forked/wrong-chain candidates, getter failure at the j-th request",
+            "One candidate per round at a tape-chosen distance from the subjective head; non-adjacent verification succeeds per a per-run trust range and a set of bad epochs; the SimGetter fails the j-th GetByHeight. Oracle: accepted (verifier nil, Syncer.Head() becomes the candidate) iff honest and no injected failure was hit; refused otherwise; GetByHeight requests <= D*(ceil(log2 D)+2)+2; the call returns within the virtual-time budget; afterwards only honest headers are stored/promoted.",
+            "Validly signed forks are only used where no skipping verification can succeed (they pass it by definition).",
+            "DESIGN.md §6 C15"),
+    "C16": ("exploration",
+            "deterministic simulation: accepted parameter combinations x chain shapes (young, old, bursty, slow, halted) x restart/reconfiguration cycles in virtual time; panic recovery, tail-request range probe, storage oracle, per-cycle pruning oracle",
+            "Parameters from the boundary grid (trustingPeriod, PruningWindow 0/1ns/.../weeks, blockTime 0/1ns/.../1h, SyncFromHeight, SyncFromHash of an existing header), chains of 5..200 headers with regular/bursty/slow/halted spacing; cycles of Start, gossip/Head(), clock advance, Stop, reconfigure. Oracle: no panic, Start/Head return within the budget and without error (unless the network head is itself expired), no getter request for a height beyond the network head, the Store is one gap-free honest chain with 1<=Tail<=Head, and no header younger than head.Time-PruningWindow is deleted in a cycle whose spacing is within blockTime.",
+            "Chains start at height 1 (the estimation's 'genesis'); known finding K02 (new tail above the stored head wedges Start) is listed in known_findings.json.",
+            "DESIGN.md §6 C16"),
+    "C19": ("exploration",
+            "deterministic simulation: virtual clock against explicitly configured recency threshold/trusting period, gated SimGetter.Head so that 2-5 callers really overlap, scripted trusted-peer answers (fresh, lower, expired, error, slower than the request timeout)",
+            "Sequences of clock advances (sub-threshold, just past recency, past the trusting period), chain halts, gossip and groups of concurrent Head() calls whose shared request is held open until all callers have joined. Oracle over the recorded getter calls and results: Head() heights never decrease in return order; a recent subjective head causes no request; a stale one exactly one request carrying TrustedHead = subjective head, shared by all overlapping callers who get the same height; (re)initialisation asks without TrustedHead and adopts only a non-expired head, else fails.",
+            "Thresholds are configured explicitly so no implementation default is mirrored.",
+            "DESIGN.md §6 C19"),
 }
 
 PENDING = {}  # id -> reason (not claimed yet)
